@@ -820,7 +820,7 @@ pub fn check_c19(ctx: &Ctx, out: &mut Outcome) {
     out.coverage.insert("catalogue_methods".into(), json!(crate::e5::catalogue().len()));
     out.coverage.insert(
         "rule".into(),
-        json!("program generator: every public reference- or iterator-returning method (catalogue checked against a source scan of the anchored files) x misuse templates {hold across purge, hold across put, drop the cache while borrowed, outlive the cache, two live &mut, shared lookup while &mut is live, send a shared-reference iterator over !Sync values / share or send a cache of !Sync / !Send values across threads}; each misuse program must be rejected with the expected error code inside its own function and its positive control (same statements, legal order / Sync value type) must compile; plus the complete Send/Sync table of the 5 cache and 10 iterator types over the 4x4 lattice K,V in {Send+Sync, Send only, Sync only, neither}, judged by the implications soundness needs. Every (method, template) pair and every table row is a distinct non-trivial case."),
+        json!("program generator: every public reference- or iterator-returning method (catalogue checked against a source scan of the anchored files) x misuse templates {hold across purge, hold across put, drop the cache while borrowed, outlive the cache, two live &mut, copy / clone of a mutable borrow or iterator, iterator items across a mutation / past the cache, shared lookup while &mut is live, a shared borrow or a live iterator across a reordering call (get, get_lru, peek_or_put), send a shared-reference iterator over !Sync values / share or send a cache of !Sync / !Send values across threads}; each misuse program must be rejected with the expected error code inside its own function and its positive control (same statements, legal order / Sync value type) must compile; plus the complete Send/Sync table of the 5 cache and 10 iterator types over the 4x4 lattice K,V in {Send+Sync, Send only, Sync only, neither} and of every hasher / key-hasher / callback type parameter of every cache type over the same four kinds, judged by the implications soundness needs. Every (method, template) pair and every table row is a distinct non-trivial case."),
     );
     out.coverage.insert("samples".into(), Value::Array(r.samples.clone()));
     out.assumptions.push("rustc's borrow checker and trait solver are the oracle; a finite template set cannot show that no safe program misuses the API".into());
@@ -1007,6 +1007,11 @@ pub fn check_ctor_caps_for(ctx: &Ctx, out: &mut Outcome, prop_id: &'static str) 
             note(SegmentedCacheBuilder::new(p, t).set_probationary_hasher(hb()).set_protected_hasher(hb()).finalize::<u64, u64>().map(caps) == Ok(want), format!("SegmentedCacheBuilder({p}, {t}) + probationary,protected hashers: capacities != {:?}", want), &mut bad);
             note(SegmentedCacheBuilder::new(p, t).set_protected_hasher(hb()).set_probationary_hasher(hb()).finalize::<u64, u64>().map(caps) == Ok(want), format!("SegmentedCacheBuilder({p}, {t}) + protected,probationary hashers: capacities != {:?}", want), &mut bad);
             note(SegmentedCacheBuilder::default().set_protected_size(t).set_probationary_hasher(hb()).set_probationary_size(p).set_protected_hasher(hb()).finalize::<u64, u64>().map(caps) == Ok(want), format!("SegmentedCacheBuilder::default() + setters ({p}, {t}): capacities != {:?}", want), &mut bad);
+            // the segments themselves must be able to hold what the accessors promise
+            let inner = |c: SegmentedCache<u64, u64, caches::DefaultHashBuilder, caches::DefaultHashBuilder>| c.verif_probationary().cap() >= p && c.verif_protected().cap() >= t;
+            n_checked += 2;
+            note(SegmentedCache::<u64, u64>::new(p, t).map(inner) == Ok(true), format!("SegmentedCache::new({p}, {t}): a segment's own list is smaller than the configured segment size"), &mut bad);
+            note(SegmentedCacheBuilder::new(p, t).finalize::<u64, u64>().map(inner) == Ok(true), format!("SegmentedCacheBuilder({p}, {t}): a segment's own list is smaller than the configured segment size"), &mut bad);
         }
         for &n in &[1usize, 2, 3, 7, 100, 70_000] {
             n_checked += 4;
@@ -1014,6 +1019,12 @@ pub fn check_ctor_caps_for(ctx: &Ctx, out: &mut Outcome, prop_id: &'static str) 
             note(
                 AdaptiveCacheBuilder::new(n).set_frequent_evict_hasher(hb()).set_recent_hasher(hb()).set_recent_evict_hasher(hb()).set_frequent_hasher(hb()).finalize::<u64, u64>().map(|c| c.cap()) == Ok(n),
                 format!("AdaptiveCacheBuilder({n}) + hashers: cap() != {n}"),
+                &mut bad,
+            );
+            n_checked += 1;
+            note(
+                AdaptiveCache::<u64, u64>::new(n).map(|c| c.verif_recent().cap() >= n && c.verif_frequent().cap() >= n) == Ok(true),
+                format!("AdaptiveCache::new({n}): the recent or the frequent list is smaller than the cache size"),
                 &mut bad,
             );
             note(TwoQueueCache::<u64, u64>::with_2q_parameters(n.max(2), 0.25, 0.5).map(|c| c.cap()) == Ok(n.max(2)), format!("TwoQueueCache::with_2q_parameters({n}): cap() != {n}"), &mut bad);
@@ -1027,6 +1038,18 @@ pub fn check_ctor_caps_for(ctx: &Ctx, out: &mut Outcome, prop_id: &'static str) 
             let want = (w + p + t, w, p + t);
             n_checked += 2;
             note(WTinyLFUCache::<u64, u64>::with_sizes(w, p, t, 8).map(|c| (c.cap(), c.window_cache_cap(), c.main_cache_cap())).ok() == Some(want), format!("WTinyLFUCache::with_sizes({w}, {p}, {t}) capacities != {:?}", want), &mut bad);
+            n_checked += 1;
+            note(
+                WTinyLFUCache::<u64, u64>::with_sizes(w, p, t, 8)
+                    .map(|c| {
+                        let m = c.verif_main();
+                        c.verif_window().cap() >= w && m.verif_probationary().cap() >= m.probationary_cap() && m.verif_protected().cap() >= m.protected_cap() && m.probationary_cap() + m.protected_cap() == p + t
+                    })
+                    .ok()
+                    == Some(true),
+                format!("WTinyLFUCache::with_sizes({w}, {p}, {t}): the window or a main segment's own list is smaller than configured"),
+                &mut bad,
+            );
             let b: WTinyLFUCacheBuilder<u64> = WTinyLFUCacheBuilder::new(w, p, t, 8);
             let r: Result<WTinyLFUCache<u64, u64, _, _, _, _>, _> = b.set_probationary_hasher(hb()).set_window_hasher(hb()).set_protected_hasher(hb()).finalize();
             note(r.map(|c| (c.cap(), c.window_cache_cap(), c.main_cache_cap())).ok() == Some(want), format!("WTinyLFUCacheBuilder({w}, {p}, {t}) + hashers: capacities != {:?}", want), &mut bad);
